@@ -100,6 +100,7 @@ RUN(invert_naive_new) { UNUSED; *res = mzd_invert_naive(NULL, m[0], m[1]); retur
 RUN(trtri) { UNUSED; mzd_trtri_upper(m[0]); return 0; }
 RUN(trtri_russian) { UNUSED; mzd_trtri_upper_russian(m[0], s->p[0]); return 0; }
 RUN(solve_left) { UNUSED; return (uint64_t)(mzd_solve_left(m[0], m[1], s->p[0], 1) + 1); }
+RUN(pluq_solve_left) { UNUSED; mzp_t *P = mzp_init(m[0]->nrows), *Q = mzp_init(m[0]->ncols); rci_t r = mzd_pluq(m[0], P, Q, s->p[0]); uint64_t h = (uint64_t)(mzd_pluq_solve_left(m[0], r, P, Q, m[1], s->p[0], 1) + 1); h = h64(h, (uint64_t)r); mzp_free(P); mzp_free(Q); return h; }
 RUN(kernel) { UNUSED; *res = mzd_kernel_left_pluq(m[0], s->p[0]); return *res ? 1 : 0; }
 RUN(make_table) { UNUSED; rci_t L[256]; mzd_make_table(m[1], s->p[0], s->p[1], s->p[2], m[0], L); uint64_t h = 0; for (int i = 0; i < (1 << s->p[2]); i++) h = h64(h, (uint64_t)L[i]); return h; }
 
@@ -242,6 +243,7 @@ static const vop OPS[] = {
   {"mzd_trtri_upper", 1, "x", "U", NSH(sh_trtri), run_trtri, 0},
   {"mzd_trtri_upper_russian", 1, "x", "U", NSH(sh_trtri), run_trtri_russian, 0},
   {"mzd_solve_left", 2, "xx", "gg", NSH(sh_solve), run_solve_left, 0},
+  {"mzd_pluq+mzd_pluq_solve_left", 2, "xx", "gg", NSH(sh_solve), run_pluq_solve_left, 0},
   {"mzd_kernel_left_pluq", 1, "x", "g", NSH(sh_kernel), run_kernel, 0},
   {"mzd_make_table", 2, "xi", "gg", NSH(sh_table), run_make_table, 1},
 };
